@@ -23,6 +23,8 @@ mutual
   inductive Same : EVal → EVal → Prop
     | cell {a b : Cell} : CellSame a b → Same (.cell a) (.cell b)
     | date (d : Int) : Same (.date d) (.date d)
+    | tdelta (d : Int) : Same (.tdelta d) (.tdelta d)
+    | nat : Same .nat .nat
     | list {xs ys : List EVal} : SameL xs ys → Same (.list xs) (.list ys)
     | tuple {xs ys : List EVal} : SameL xs ys → Same (.tuple xs) (.tuple ys)
     | arr (s : List Nat) {xs ys : List EVal} : SameL xs ys → Same (.arr s xs) (.arr s ys)
@@ -128,6 +130,14 @@ theorem eq_iff_same_aux : ∀ (n : Nat) (a b : EVal), sizeOf a ≤ n → a.keysO
       case date y =>
         simp only [eq, EVal.norm, eqN, beq_iff_eq]
         exact ⟨fun e => e ▸ Same.date x, fun hc => by cases hc; rfl⟩
+    | tdelta x =>
+      cases b <;> try (simp [eq, EVal.norm, eqN]; intro hc; cases hc; done)
+      case tdelta y =>
+        simp only [eq, EVal.norm, eqN, beq_iff_eq]
+        exact ⟨fun e => e ▸ Same.tdelta x, fun hc => by cases hc; rfl⟩
+    | nat =>
+      cases b <;> try (simp [eq, EVal.norm, eqN]; intro hc; cases hc; done)
+      case nat => simp only [eq, EVal.norm, eqN]; exact ⟨fun _ => Same.nat, fun _ => trivial⟩
     | list xs =>
       cases b <;> try (simp [eq, EVal.norm, eqN]; intro hc; cases hc; done)
       case list ys =>
